@@ -5,6 +5,7 @@ import (
 	"encoding/hex"
 	"encoding/json"
 	"fmt"
+	"os"
 	"reflect"
 	"runtime/debug"
 	"strings"
@@ -245,6 +246,13 @@ func checkC06(p *put, c *c06Case, r *vstat.Run) outcome {
 			}
 			return outcome{}
 		}
+		if c.Shape == "nest_recursive_system" && (strings.Contains(pm, "did not progress") || strings.Contains(pm, "too many iterations")) {
+			// recursive systems may contain union members that match nothing: the library's own grammar-bug class
+			if r != nil {
+				r.Count("grammar_bug_class_not_judged")
+			}
+			return outcome{}
+		}
 		// Generated grammars never contain an alternative or repetition body that can match without consuming a
 		// token (generator soundness rule), so the library's "did not progress" / "too many iterations" reactions
 		// to that grammar-bug class are not exempted here.
@@ -349,7 +357,8 @@ func checkC06Stack(f *fixtures.Fixture, r *vstat.Run) outcome {
 // ---- input mutation ----
 
 var c06Junk = [][]byte{[]byte("\xff"), []byte("\x00"), []byte("\xc3"), []byte("é"), []byte("日本"), []byte("\""), []byte("'"), []byte("`"), []byte("\\"), []byte("\n"), []byte("\r\n"),
-	[]byte("("), []byte(")"), []byte("{"), []byte("}"), []byte("["), []byte("]"), []byte("/*"), []byte("*/"), []byte("//"), []byte("#"), []byte("="), []byte(";"), []byte(","), []byte("0x"), []byte("1e"), []byte("${"), []byte("<<"), []byte("@"), []byte("$"), []byte(" ")}
+	[]byte("("), []byte(")"), []byte("{"), []byte("}"), []byte("["), []byte("]"), []byte("/*"), []byte("*/"), []byte("//"), []byte("#"), []byte("="), []byte(";"), []byte(","), []byte("0x"), []byte("1e"), []byte("${"), []byte("<<"), []byte("@"), []byte("$"), []byte(" "),
+	[]byte(`\q`), []byte(`"\q"`), []byte(`"\x4"`), []byte(`'\u12'`), []byte(`"a\400b"`), []byte(`\`)}
 
 func mutateBytes(t *rapid.T, sample []byte) ([]byte, string) {
 	b := append([]byte(nil), sample...)
@@ -373,7 +382,7 @@ func mutateBytes(t *rapid.T, sample []byte) ([]byte, string) {
 		}
 		if len(quotes) > 0 {
 			a := quotes[rapid.IntRange(0, len(quotes)-1).Draw(t, "quote")] + 1
-			ins := []byte(rapid.SampledFrom([]string{"x\né日 ", "\nzwölf é ", "a\r\nüü", "\n\n日本語"}).Draw(t, "spanins"))
+			ins := []byte(rapid.SampledFrom([]string{"x\né日 ", "\nzwölf é ", "a\r\nüü", "\n\n日本語", `\q`, `a\x4`, `\u12z`, `\400`}).Draw(t, "spanins"))
 			b = append(b[:a:a], append(ins, b[a:]...)...)
 			end := a + len(ins)
 			for end < len(b) && b[end] != '\n' {
@@ -431,9 +440,26 @@ func mutateBytes(t *rapid.T, sample []byte) ([]byte, string) {
 
 func TestC06(t *testing.T) {
 	debug.SetMaxStack(64 << 20)
+	runProp(t, "C06", c06Rule, propC06)
+}
+
+func FuzzC06(f *testing.F) {
+	debug.SetMaxStack(64 << 20)
+	fuzzProp(f, "C06", propC06)
+}
+
+var c06StackDone = map[string]bool{}
+
+func propC06(t *rapid.T, r *vstat.Run) {
 	fxs := fixtures.All()
-	stackDone := map[string]bool{}
-	runProp(t, "C06", c06Rule, func(t *rapid.T, r *vstat.Run) {
+	stackDone := c06StackDone
+	if os.Getenv("VERIF_FUZZ") != "" {
+		stackDone = map[string]bool{} // the recursion-depth comparisons belong to the rapid run
+		for _, f := range fxs {
+			stackDone[f.Name] = true
+		}
+	}
+	{
 		entry := rapid.SampledFrom([]string{"string", "string", "bytes", "reader", "slowreader"}).Draw(t, "entry")
 		filename := rapid.SampledFrom([]string{"f", "", "dir/x.cfg", "é"}).Draw(t, "filename")
 		switch k := rapid.IntRange(0, 9).Draw(t, "kind"); {
@@ -463,7 +489,14 @@ func TestC06(t *testing.T) {
 			}
 			report(t, r, o, c)
 		default:
-			g := gram.GenGrammar(t, gram.GenOpts{MaxProds: 4, MaxDepth: 3, TrapPercent: 15, PosStyles: true, MixedUnion: true, Profiles: true, NameElided: rapid.IntRange(0, 7).Draw(t, "named") == 0})
+			var g *gram.Grammar
+			recursive := rapid.IntRange(0, 4).Draw(t, "recsys") == 0
+			if recursive {
+				// recursive systems: whatever Build accepts must parse without unbounded recursion
+				g, _ = gram.GenRecSystem(t)
+			} else {
+				g = gram.GenGrammar(t, gram.GenOpts{MaxProds: 4, MaxDepth: 3, TrapPercent: 15, PosStyles: true, MixedUnion: true, Profiles: true, NameElided: rapid.IntRange(0, 7).Draw(t, "named") == 0})
+			}
 			b, msg := buildGrammar(g)
 			if msg != "" {
 				r.Count("build_failed_left_to_C19")
@@ -488,6 +521,9 @@ func TestC06(t *testing.T) {
 				}
 				c := newC06Case(in)
 				c.G, c.Entry, c.Filename, c.Shape = g, entry, filename, "generated_"+shape
+				if recursive {
+					c.Shape = "nest_recursive_system" // journalled: a missed left recursion kills the process
+				}
 				o := checkC06(p, c, r)
 				r.NonTrivial(mustJSON(c), func() any {
 					cc := *c
@@ -498,7 +534,7 @@ func TestC06(t *testing.T) {
 				report(t, r, o, c)
 			}
 		}
-	})
+	}
 }
 
 func TestC06Replay(t *testing.T) {
